@@ -240,9 +240,10 @@ def WithinBounds (U : Ty → Prop) (I : InstIn) (σ : TMap) : Prop :=
 theorem instOK_sound {U : Ty → Prop} (hU : ClosedU U) (I : InstIn) (σ : TMap) (targs : Option (List Ty))
     (hUa : ∀ p ∈ I.params, ∀ a, σ.get p = some a → U (argCore a))
     (hUb : ∀ p ∈ I.params, ∀ b, boundOf p = some b → U (substituteType b σ))
+    (hc : preConsistent I = true)
     (h : instOK I σ targs = true) : WithinBounds U I σ := by
   intro p hp
-  simp only [instOK, Bool.and_eq_true] at h
+  simp only [instOK, Bool.and_eq_true, hc, Bool.not_true, Bool.false_or] at h
   obtain ⟨a, others, hg, h1⟩ := instOKL_mem h.2 p hp
   simp only [instOK1, Bool.and_eq_true, Bool.or_eq_true, Bool.not_eq_true'] at h1
   obtain ⟨⟨hreq | ⟨⟨⟨⟨n1, n2⟩, n3⟩, n4⟩, hb⟩, _⟩, _⟩ := h1
@@ -257,34 +258,40 @@ theorem instOK_sound {U : Ty → Prop} (hU : ClosedU U) (I : InstIn) (σ : TMap)
 theorem instOK_args (I : InstIn) (σ : TMap) (as : List Ty) (h : instOK I σ (some as) = true) :
     as.length = I.params.length ∧ beqL as (I.params.filterMap σ.get) = true ∧
     ∀ p ∈ I.params, (σ.get p).isSome = true := by
-  simp only [instOK, Bool.and_eq_true, beq_iff_eq] at h
-  refine ⟨h.1.1, h.1.2, ?_⟩
-  intro p hp
-  obtain ⟨a, _, hg, _⟩ := instOKL_mem h.2 p hp
-  simp [hg]
+  simp only [instOK, Bool.and_eq_true, beq_iff_eq, List.all_eq_true] at h
+  exact ⟨h.1.1.1, h.1.1.2, h.1.2⟩
 
-/-- a projection that the caller did not ask for (neither for the parameter itself nor for a
-    parameter bounded by it) is *permitted* -/
+/-- also for `instantiate_parameterized_function` (no argument list): every parameter is assigned -/
+theorem instOK_total (I : InstIn) (σ : TMap) (targs : Option (List Ty)) (h : instOK I σ targs = true) :
+    ∀ p ∈ I.params, (σ.get p).isSome = true := by
+  simp only [instOK, Bool.and_eq_true, List.all_eq_true] at h
+  exact h.1.2
+
+/-- a projection that the helper decided on (`exemptProjection`: not the caller's own request
+    for the parameter or for a parameter below/above it in a bound chain, not the copy of the
+    assignment of the parameter's bound) is *permitted* -/
 theorem instOK_projection (I : InstIn) (σ : TMap) (targs : Option (List Ty)) (h : instOK I σ targs = true)
     (p : Ty) (hp : p ∈ I.params) (v : Nat) (bd : Option Ty) (hg : σ.get p = some (wild v bd))
-    (hpre : I.pre.get p = none) (hbelow : requestsBelow I p = []) :
+    (hex : exemptProjection I σ p (wild v bd) = false) (hc : preConsistent I = true) :
     bd.isSome = true ∧ ∃ others, projAllowed I p others v = true := by
-  simp only [instOK, Bool.and_eq_true] at h
+  simp only [instOK, Bool.and_eq_true, hc, Bool.not_true, Bool.false_or] at h
   obtain ⟨a, others, hg', h1⟩ := instOKL_mem h.2 p hp
   rw [hg] at hg'
   cases hg'
   simp only [instOK1, Bool.and_eq_true] at h1
   have h4 := h1.2
-  simp only [hpre, hbelow, List.any_nil, Bool.false_or, Bool.and_eq_true] at h4
+  simp only [hex, Bool.false_or, Bool.and_eq_true] at h4
   exact ⟨h4.1, others, h4.2⟩
 
-/-- a caller's assignment is kept, at most wrapped in a permitted projection — unless another
-    requested assignment overrides it through a bound chain (`overridable`) -/
+/-- a caller's assignment is kept, at most wrapped in a permitted projection — when the requests
+    are consistent with the bounds (`preConsistent`), and unless another requested assignment
+    overrides it through a bound chain (`overridable`) -/
 theorem instOK_kept (I : InstIn) (σ : TMap) (targs : Option (List Ty)) (h : instOK I σ targs = true)
-    (p : Ty) (hp : p ∈ I.params) (t : Ty) (hpre : I.pre.get p = some t) (hov : overridable I p = false) :
+    (p : Ty) (hp : p ∈ I.params) (t : Ty) (hpre : I.pre.get p = some t) (hov : overridable I p = false)
+    (hc : preConsistent I = true) :
     ∃ a, σ.get p = some a ∧ (beq a t = true ∨
       ∃ v x others, a = wild v (some x) ∧ beq x t = true ∧ t.isWild = false ∧ projAllowed I p others v = true) := by
-  simp only [instOK, Bool.and_eq_true] at h
+  simp only [instOK, Bool.and_eq_true, hc, Bool.not_true, Bool.false_or] at h
   obtain ⟨a, others, hg, h1⟩ := instOKL_mem h.2 p hp
   simp only [instOK1, Bool.and_eq_true] at h1
   have h3 := h1.1.2
